@@ -42,6 +42,7 @@ import (
 	"github.com/AdguardTeam/AdGuardDNS/internal/querylog"
 	"github.com/AdguardTeam/golibs/netutil"
 	"github.com/miekg/dns"
+	"github.com/prometheus/client_golang/prometheus"
 	"verif.local/harness/vdns"
 )
 
@@ -520,8 +521,21 @@ func (u *vc07Upstream) ServeDNS(ctx context.Context, rw dnsserver.ResponseWriter
 	u.calls.Add(1)
 	u.st.checkCtx(ctx, "upstream", req)
 
+	// A forwarder has to put the request on the wire first.  A request that
+	// does not pack is the doing of the code in front of the upstream: the
+	// asker gets an error, which is judged like any other outcome.
+	if _, perr := req.Copy().Pack(); perr != nil {
+		return fmt.Errorf("vc07 upstream: request does not pack: %w", perr)
+	}
+
 	q := req.Question[0]
 	cat, scoped := vc07CatOf(q.Name)
+	if u.st.conf.CacheType == dnssvc.CacheTypeSimple {
+		// The simple cache is keyed by the question only; it is for upstreams
+		// whose answers do not depend on the client's subnet.
+		scoped = false
+	}
+
 	if cat == "err" {
 		// A processing fault in the middle of other requests.
 		return errors.New("vc07 upstream: connection reset")
@@ -558,14 +572,17 @@ func (u *vc07Upstream) ServeDNS(ctx context.Context, rw dnsserver.ResponseWriter
 		opt.Option = append(opt.Option, &dns.EDNS0_SUBNET{Code: dns.EDNS0SUBNET, Family: e.Family, SourceNetmask: e.SourceNetmask, SourceScope: scope, Address: append(net.IP(nil), e.Address...)})
 	}
 
+	// The answer echoes parts of the request (client-subnet option); if that
+	// makes it unpackable or undecodable, the request was malformed in a way
+	// Pack did not see, and the asker gets an error as well.
 	wire, err := resp.Pack()
 	if err != nil {
-		panic(fmt.Errorf("VERIF-INCONCLUSIVE: upstream cannot pack %v: %v", resp, err))
+		return fmt.Errorf("vc07 upstream: answer to %v does not pack: %w", q, err)
 	}
 
 	decoded := &dns.Msg{}
 	if err = decoded.Unpack(wire); err != nil {
-		panic(fmt.Errorf("VERIF-INCONCLUSIVE: upstream cannot decode its own answer: %v", err))
+		return fmt.Errorf("vc07 upstream: answer to %v does not decode: %w", q, err)
 	}
 
 	return rw.WriteMsg(ctx, req, decoded)
@@ -1177,6 +1194,15 @@ func vc07NewStack(conf vc07StackConf, expect map[agd.RequestID]*vc07Req) (st *vc
 		FilteringGroups:  map[agd.FilteringGroupID]*agd.FilteringGroup{fltGrp.ID: fltGrp},
 		ServerGroups:     []*agd.ServerGroup{srvGrp},
 		EDEEnabled:       true,
+	}
+
+	if conf.CacheType == dnssvc.CacheTypeSimple {
+		// The simple cache registers its collectors with the default
+		// registerer; every stack gets a registry of its own.  (Stacks are
+		// built by the test goroutine only.)
+		oldReg := prometheus.DefaultRegisterer
+		prometheus.DefaultRegisterer = prometheus.NewRegistry()
+		defer func() { prometheus.DefaultRegisterer = oldReg }()
 	}
 
 	handlers, err := dnssvc.NewHandlers(context.Background(), hc)
